@@ -67,6 +67,17 @@ def gen_case(rng, corpus=None):
         info[PN[i]] = toks
         shapes[PN[i]] = G.shape_for(rng, toks, env, rng.random() < .22)
         dtypes[PN[i]] = dt
+        vi = [j for j, (_, k) in enumerate(toks) if k in ("var", "vanon")]
+        if vi and 0 < vi[0] < len(toks) - 1 and rng.random() < .4:
+            # a variadic axis with ordinary axes on both sides, and an array of too small a rank (>= each side, < their sum)
+            shapes[PN[i]] = shapes[PN[i]][:max(vi[0], len(toks) - 1 - vi[0])]
+        sh = shapes[PN[i]]
+        if len(sh) >= 2 and rng.random() < .25:
+            # Union[decoy, real]: the decoy alternative cannot match this value in ANY context (fixed last axis != the value's), but
+            # its prefix names an axis other parameters use; a failed alternative must leave nothing behind, so the call is judged
+            # exactly as with the real annotation alone (the model gets the real one)
+            params[-1]["union"] = ["%s *q_ %d" % (rng.choice(G.NAMES), sh[-1] + 2), params[-1]["dim"]]
+            params[-1]["decoy"] = True
     ret, retinfo, ret_shape = None, [], []
     if rng.random() < .8:
         while True:
@@ -100,6 +111,14 @@ CORPUS = [
     ([P("x", "_ a"), P("y", "a ..."), P("z", "... a")], None, {"x": [7, 2], "y": [2, 9, 9], "z": [2]}, []),
     ([P("x", "a", "Int")], None, {"x": [2]}, []),
     ([P("x", "0 a"), P("y", "a 0")], None, {"x": [0, 5], "y": [5, 0]}, []),
+    # ordinary axes on both sides of a variadic one, rank below the number of ordinary axes: no assignment exists
+    ([P("x", "batch *mid chan")], None, {"x": [5]}, []),
+    ([P("x", "a b *rest c d")], None, {"x": [2, 3, 4]}, []),
+    ([P("x", "n ... n"), P("y", "n")], None, {"x": [4], "y": [4]}, []),
+    ([P("x", "a b *rest c d")], None, {"x": [2, 3, 4, 5]}, []),
+    # a union whose first alternative fails only after its prefix matched: nothing of it may stay behind
+    ([dict(P("x", "m n"), union=["n *b 3", "m n"], decoy=True), P("y", "n")], None, {"x": [4, 5], "y": [5]}, []),
+    ([dict(P("x", "m n"), union=["n *b 3", "m n"], decoy=True), P("y", "n")], {"dim": "n", "cat": "Float"}, {"x": [4, 5], "y": [4]}, [5]),
 ]
 
 
